@@ -172,11 +172,24 @@ def interceptor_unit(tier):
               leaves=['dynamic_check', ctx], prop=PROP, root_name='sandbox_callback_interceptor', tier=tier, pre=G, post_protos=post, root_pick=pick,
               opts={'indirect_stubs': {'*': 'app_cb_stub'}}, extra_replace=['app_cb_stub'],
               note='guest long is 32-bit under vsbx: the argument arrives as int and is widened; the int result is passed back unchanged')
-    return Unit('C12_interceptor', [it])
+    # a callback whose result type narrows under the guest ABI (long -> 32-bit): converted exactly, or the call aborts
+    post2 = ('struct %s app_cb_stub(void *target, struct %s *sb, struct %s a0)\n'
+             '__CPROVER_ensures(g_icalls == __CPROVER_old(g_icalls) + 1 && g_icall_target == (unsigned long)target && g_icall_sb == (unsigned long)sb && g_icall_arg0 == a0.data && __CPROVER_return_value.data == g_icall_lret)\n'
+             '__CPROVER_assigns(g_icalls, g_icall_target, g_icall_sb, g_icall_arg0);\n' % (TL, SB, TL))
+    cl2 = [c for c in cl if c[0] not in ('noabort_pre', 'result_converted_to_guest_abi', 'frame')] + [
+        ('noabort_pre', '__CPROVER_requires(g_noabort ==> (MI(g_icall_lret) >= %s && MI(g_icall_lret) <= %s))' % (mi(-(2 ** 31)), mi(2 ** 31 - 1))),
+        ('result_converted_to_guest_abi_or_abort', '__CPROVER_ensures(MI($ret) == MI(g_icall_lret))'),
+        ('frame', '__CPROVER_assigns(g_icalls, g_icall_target, g_icall_sb, g_icall_arg0)')]
+    h2 = h.replace('int in_ret; g_icall_ret = in_ret;', 'long in_ret; g_icall_lret = in_ret;')
+    it2 = Inst('c12_interceptor_long_long', 'rlbox_sandbox<vsbx>& s, tainted<long, vsbx> (*f)(rlbox_sandbox<vsbx>&, tainted<long, vsbx>)', 's.register_callback(f);', cl2, h2,
+               leaves=['dynamic_check', ctx], prop=PROP, root_name='sandbox_callback_interceptor', tier=tier, pre=G + ' long g_icall_lret;\n', post_protos=post2, root_pick=pick,
+               opts={'indirect_stubs': {'*': 'app_cb_stub'}}, extra_replace=['app_cb_stub'],
+               note='the long result is narrowed to the guest 32-bit long: exact, or the call aborts (both directions)')
+    return Unit('C12_interceptor', [it]), Unit('C12_interceptor_long', [it2])
 
 
 def units(tier):
-    us = [mk_unit('noop', 'lib', tier), mk_unit('noop', 'embedder', tier, table_ops=(tier != 'quick')), interceptor_unit(tier)]
+    us = [mk_unit('noop', 'lib', tier), mk_unit('noop', 'embedder', tier, table_ops=(tier != 'quick'))] + list(interceptor_unit(tier))
     # dylib backend: the dispatch functions (trampolines, get_executed, invoke save/restore) on every change; its slot-table
     # functions (the same text as the no-op backend's, 64 unrolled lambdas each) in the thorough tier
     us += [mk_unit('dylib', 'lib', tier, table_ops=(tier != 'quick')), mk_unit('dylib', 'embedder', tier, table_ops=(tier != 'quick'))]
